@@ -79,7 +79,7 @@ ValidProfile(S) ==
     /\ \A x, y \in S : x # y => x.p # y.p
     /\ \A x, y \in S : ~(Beneath(x, y) /\ y.k \in {"file", "symlink"})
 ProfileSets ==
-    {S \in {{}} \cup {{x} : x \in Universe} \cup {{x, y} : x, y \in Universe}
+    {S \in {{}} \cup {{x} : x \in Universe} \cup (IF MaxEntries >= 2 THEN {{x, y} : x, y \in Universe} ELSE {})
             \cup (IF MaxEntries >= 3 THEN {{x, y, z} : x, y, z \in Universe} ELSE {}) : ValidProfile(S)}
 RECURSIVE SetToSeq(_)
 SetToSeq(S) == IF S = {} THEN <<>> ELSE LET x == CHOOSE x \in S : TRUE IN <<x>> \o SetToSeq(S \ {x})
